@@ -376,6 +376,27 @@ def explore_scan_gate(ctx):
     outside = [p for p in walked if not (p == rootreal or p.startswith(rootreal + "/"))]
     if outside:
         ctx.fail("C06:scan-gate", f"directories outside the node root were walked: {outside}", {"family": "scan-gate", "walked": walked})
+    # single-file import requests: a path that is not a canonical relative path is refused, whatever pathlib would make of it
+    w.ArchiveFileImportRequest.delete().execute()
+    for path in ("acqA/good.dat", "acqA//good.dat", "./acqA/good.dat", "acqA/./good.dat", "acqA/good.dat/", "acqA/sub/../good.dat", "/abs/good.dat"):
+        w.ArchiveFileImportRequest.delete().execute()
+        for tbl in (w.ArchiveFileCopy, w.ArchiveFile, w.ArchiveAcq):
+            tbl.delete().execute()
+        w.ArchiveFileImportRequest.create(node=node, path=path, recurse=False, register=True)
+        un.update_import()
+        tasks = []
+        while True:
+            it = queue.get(timeout=0.001)
+            if it is None:
+                break
+            tasks.append(str(it[0]))
+            it[0]()
+            queue.task_done(it[1])
+        made = [f"{f.acq.name}/{f.name}" for f in w.ArchiveFile.select()]
+        ctx.count("import-gate")
+        rp = {"family": "import-gate", "request": path, "tasks": tasks, "registered": made}
+        if canonical(path) != bool(tasks) or (not canonical(path) and made):
+            ctx.fail("C06:gate", f"import request for {path!r} (canonical: {canonical(path)}): tasks queued {tasks}, registered {made}", rp)
     shutil.rmtree(base, ignore_errors=True)
 
 
